@@ -33,6 +33,7 @@ func init() {
 			{ID: "C16.R8", Floor: 2, Doc: "event handlers' frame switches do not panic on unexpected frames", Run: c16r8},
 			{ID: "C16.R9", Floor: 1, Doc: "the event batch handed to the handler goroutine does not share storage with the buffer that keeps collecting events", Run: ruleGoHandoff},
 			{ID: "C16.R10", Floor: 4, Doc: "published host/token snapshots are read-only for their readers (=C11.R6)", Run: ruleSharedSlices},
+			{ID: "C16.R11", Floor: 6, Doc: "the host-id keyed tables (ring.hosts, policyConnPool.hostConnPools) are only ever indexed with host ids", Run: c16r11},
 		},
 	})
 }
@@ -460,6 +461,72 @@ func c16r5(p *Program, r *Report) {
 	if n == 0 {
 		r.Unresolved("getClusterPeerInfo: no append of a peer")
 	}
+	// what isValidPeer accepts: a row is a usable peer only with an address, a host id, a datacenter, a rack and
+	// tokens; every `true` answer must have excluded each of the five gaps
+	if vp := r.NeedFunc("isValidPeer"); vp != nil {
+		vg := p.GraphOf(vp)
+		vinfo := vg.Info
+		vfacts := vg.GuardFacts()
+		needs := []struct {
+			what string
+			keys []string
+		}{
+			{"an RPC address", []string{"RPCAddress", "rpcAddress", "ConnectAddress", "connectAddress"}},
+			{"a host id", []string{"hostId", "HostID"}},
+			{"a datacenter", []string{"dataCenter", "DataCenter"}},
+			{"a rack", []string{"rack", "Rack"}},
+			{"tokens", []string{"tokens", "Tokens"}},
+		}
+		nret := 0
+		for _, e := range vg.Exits() {
+			rs, ok := e.Node.(*ast.ReturnStmt)
+			if !ok || len(rs.Results) != 1 {
+				continue
+			}
+			f0, okF := vfacts.Before(rs)
+			if !okF {
+				continue
+			}
+			f := f0.clone()
+			if tv, isC := vinfo.Types[rs.Results[0]]; isC && tv.Value != nil {
+				if tv.Value.String() != "true" {
+					continue
+				}
+			} else {
+				f.assume(rs.Results[0], true)
+			}
+			nret++
+			var missing []string
+			for _, nd := range needs {
+				excluded := false
+				for atom, v := range f.m {
+					hit := false
+					for _, k := range nd.keys {
+						if mentionsField(atom, k) || strings.Contains(atom, "."+k+"()") {
+							hit = true
+						}
+					}
+					if !hit {
+						continue
+					}
+					a := strings.ReplaceAll(atom, " ", "")
+					emptyTest := strings.HasSuffix(a, "==\"\"") || strings.HasPrefix(a, "\"\"==") || strings.HasSuffix(a, "==0") || strings.HasPrefix(a, "0==") || strings.HasSuffix(a, "==nil")
+					nonEmptyTest := strings.HasPrefix(a, "0<len(")
+					if emptyTest && !v || nonEmptyTest && v {
+						excluded = true
+					}
+				}
+				if !excluded {
+					missing = append(missing, nd.what)
+				}
+			}
+			r.Check(len(missing) == 0, rs, "isValidPeer accepts a row only with address, host id, datacenter, rack and tokens", "all five gaps excluded on this path",
+				"isValidPeer answers true for a row without "+strings.Join(missing, " / ")+": such a peer enters the ring (a node that is still joining has no tokens; one without address or id cannot be connected to or keyed)")
+		}
+		if nret == 0 {
+			r.Unresolved("isValidPeer never answers true")
+		}
+	}
 }
 
 func c16r6(p *Program, r *Report) {
@@ -598,4 +665,175 @@ func assumeStrOf(st *pathState) string {
 		return ""
 	}
 	return assumeStr(st)
+}
+
+// c16r11: ring.hosts and policyConnPool.hostConnPools are keyed by host id. An index expression on either must be a
+// host id: <host>.HostID() (or the hostId field), a local bound to one, the key of a range over one of the two maps,
+// a value of the address index ring.hostIPToUUID, or a parameter that receives such a value at every call site.
+// An address used as the key finds nothing: the pool of a node that went down is never removed.
+func c16r11(p *Program, r *Report) {
+	tables := map[*types.Var]string{}
+	if f := p.Field("ring", "hosts"); f != nil {
+		tables[f] = "ring.hosts"
+	}
+	if f := p.Field("policyConnPool", "hostConnPools"); f != nil {
+		tables[f] = "policyConnPool.hostConnPools"
+	}
+	ipIndex := p.Field("ring", "hostIPToUUID")
+	var isID func(fi *FuncInfo, e ast.Expr, depth int) (bool, string)
+	isID = func(fi *FuncInfo, e ast.Expr, depth int) (bool, string) {
+		info := fi.Pkg.TypesInfo
+		e = ast.Unparen(e)
+		if depth > 4 {
+			return false, "too deep"
+		}
+		switch x := e.(type) {
+		case *ast.CallExpr:
+			if strings.HasSuffix(calleeName(info, x), ".HostID") && len(x.Args) == 0 {
+				return true, exprStr(x)
+			}
+		case *ast.SelectorExpr:
+			if fv := fieldOf(info, x); fv != nil && (fv.Name() == "hostId" || fv.Name() == "hostID") {
+				return true, exprStr(x)
+			}
+		case *ast.IndexExpr:
+			if fv := fieldOf(info, x.X); fv != nil && fv == ipIndex {
+				return true, exprStr(x)
+			}
+		case *ast.Ident:
+			obj := info.Uses[x]
+			if obj == nil {
+				return false, exprStr(e)
+			}
+			// range key over one of the tables
+			var ok bool
+			var why string
+			ast.Inspect(fi.Decl.Body, func(y ast.Node) bool {
+				if rs, isR := y.(*ast.RangeStmt); isR && rs.Key != nil {
+					if kid, isId := rs.Key.(*ast.Ident); isId && info.Defs[kid] == obj {
+						if fv := fieldOf(info, rs.X); fv != nil && tables[fv] != "" {
+							ok, why = true, "key of "+exprStr(rs.X)
+						}
+						// a local set whose keys were all host ids
+						if mid, isM := ast.Unparen(rs.X).(*ast.Ident); isM && depth < 3 {
+							if _, isMap := info.TypeOf(mid).Underlying().(*types.Map); isMap {
+								nkeys, allIDs := 0, true
+								ast.Inspect(fi.Decl.Body, func(z ast.Node) bool {
+									for _, l := range assignedLHS(z) {
+										if mix, isIx := ast.Unparen(l).(*ast.IndexExpr); isIx && isIdentOf(info, mix.X, info.Uses[mid]) {
+											nkeys++
+											if okK, _ := isID(fi, mix.Index, depth+1); !okK {
+												allIDs = false
+											}
+										}
+									}
+									return true
+								})
+								if nkeys > 0 && allIDs {
+									ok, why = true, "key of the local set "+mid.Name+", filled with host ids"
+								}
+							}
+						}
+					}
+					if vid, isId := rs.Value.(*ast.Ident); isId && info.Defs[vid] == obj {
+						if fv := fieldOf(info, rs.X); fv != nil && fv == ipIndex {
+							ok, why = true, "value of "+exprStr(rs.X)
+						}
+					}
+				}
+				return true
+			})
+			if ok {
+				return true, why
+			}
+			// a local with definitions that are all ids (comma-ok lookups in the address index included)
+			ndef, all := 0, true
+			ast.Inspect(fi.Decl.Body, func(y ast.Node) bool {
+				as, isAs := y.(*ast.AssignStmt)
+				if !isAs {
+					return true
+				}
+				for i, l := range as.Lhs {
+					lid, isId := l.(*ast.Ident)
+					if !isId || (info.Defs[lid] != obj && info.Uses[lid] != obj) {
+						continue
+					}
+					ndef++
+					var rhs ast.Expr
+					if len(as.Rhs) == len(as.Lhs) {
+						rhs = as.Rhs[i]
+					} else if len(as.Rhs) == 1 && i == 0 {
+						rhs = as.Rhs[0]
+					}
+					if rhs == nil {
+						all = false
+						continue
+					}
+					if okR, _ := isID(fi, rhs, depth+1); !okR {
+						all = false
+					}
+				}
+				return true
+			})
+			if ndef > 0 {
+				return all, "local " + x.Name
+			}
+			// a parameter: every call site passes an id
+			if fi.Obj != nil {
+				sig := fi.Obj.Type().(*types.Signature)
+				for i := 0; i < sig.Params().Len(); i++ {
+					if sig.Params().At(i) != obj {
+						continue
+					}
+					nsite, allSites := 0, true
+					bad := ""
+					p.forEachFunc(false, func(caller *FuncInfo) {
+						ci := caller.Pkg.TypesInfo
+						for _, c := range callsIn(caller.Decl.Body) {
+							if fn := calleeOf(ci, c); fn != nil && fn == fi.Obj && i < len(c.Args) {
+								nsite++
+								if okA, _ := isID(caller, c.Args[i], depth+1); !okA {
+									allSites = false
+									bad = p.Pos(c) + ": " + exprStr(c.Args[i])
+								}
+							}
+						}
+					})
+					if nsite == 0 {
+						return true, "parameter " + x.Name + " (no call site in the module)"
+					}
+					if !allSites {
+						return false, "parameter " + x.Name + " receives " + bad
+					}
+					return true, "parameter " + x.Name + ", a host id at every call site"
+				}
+			}
+		}
+		return false, exprStr(e)
+	}
+	n := 0
+	p.forEachFunc(false, func(fi *FuncInfo) {
+		if fi.Pkg != p.Root {
+			return
+		}
+		info := fi.Pkg.TypesInfo
+		inspectNoLit(fi.Decl.Body, func(x ast.Node) bool {
+			ix, ok := x.(*ast.IndexExpr)
+			if !ok {
+				return true
+			}
+			fv := fieldOf(info, ix.X)
+			if fv == nil || tables[fv] == "" {
+				return true
+			}
+			n++
+			okK, why := isID(fi, ix.Index, 0)
+			r.Check(okK, ix, fi.Name+" indexes "+tables[fv]+" with a host id", why,
+				tables[fv]+" is keyed by host id but is indexed here with "+why+": the entry is not found (a pool is never removed, a host is looked up under its address)")
+			return true
+		})
+	})
+	if n == 0 {
+		r.Unresolved("no index expression on ring.hosts / policyConnPool.hostConnPools found")
+	}
 }
